@@ -72,20 +72,20 @@ var avoidKnown = map[string]bool{
 	// needs traf.Trun, which is nil when the first track of a multi-track fragment received no sample
 	// (CreateMultiTrackFragment creates truns on demand): the whole fragment cannot be encoded
 	// ("tfhd or trun box missing in traf"; a nil pointer dereference before /repo commit 4c51834).
-	"optimize-first-traf-without-trun": true,
+	"optimize-first-traf-without-trun": false, // repaired in /repo (fix: 566c721)
 	// A single-track fragment to which nothing was added cannot be encoded with OptimizeTrun:
 	// OptimizeTfhdTrun returns "no samples in trun" (without optimisation the same fragment encodes and
 	// decodes to zero samples).
-	"optimize-empty-fragment": true,
+	"optimize-empty-fragment": false, // repaired in /repo (fix: 566c721)
 	// With OptimizeTrun a first trun of more than 1024 samples that agree in duration, size and flags and
 	// have no composition offset is written without any per-sample field; DecodeTrun/DecodeTrunSR refuse
 	// such a box ("sampleCount N is big but no sample data present"), so the library cannot read back
 	// what it wrote.
-	"optimize-over-1024-identical-samples": true,
+	"optimize-over-1024-identical-samples": false, // repaired in /repo (fix: 396a347)
 	// Fragment.AddSampleToTrack / AddFullSampleToTrack with a track id the fragment has no traf for: the
 	// search loop leaves its loop variable at the last traf, the "no track with trackID" error is
 	// unreachable and the sample is silently added to the last track of the fragment.
-	"addsampletotrack-unknown-track": true,
+	"addsampletotrack-unknown-track": false, // repaired in /repo (fix: 5109e73)
 }
 
 // ---------------------------------------------------------------------------------------------
@@ -238,7 +238,7 @@ type builtFrag struct {
 	// expected top-level types of the fragment
 	emsgs, post []string
 	childEmsg   bool
-	runs        []int // track index per trun, in write order (model)
+	runs        []int       // track index per trun, in write order (model)
 	firstRun    []sampleDef // the samples of the first trun of the first track of the fragment
 	nRuns       map[int]int
 }
@@ -334,6 +334,9 @@ func interpret(c *historyCase, st *stats) (*built, *harness.Fail) {
 			for _, x := range o.Extra {
 				if extraType(x.Kind) == "emsg" {
 					return nil, bad("%s: emsg as a top-level box before a segment", where)
+				}
+				if extraType(x.Kind) == "prft" && o.Styp {
+					return nil, bad("%s: prft as a top-level box in front of a styp box", where)
 				}
 				raw, err := extraBytes(x, 1)
 				if err != nil {
@@ -550,14 +553,14 @@ type sink interface {
 type wSink struct{ buf bytes.Buffer }
 
 func (s *wSink) box(enc func() error, _ func(bits.SliceWriter) error) error { return enc() }
-func (s *wSink) raw(p []byte)                                              { s.buf.Write(p) }
-func (s *wSink) bytes() []byte                                             { return s.buf.Bytes() }
+func (s *wSink) raw(p []byte)                                               { s.buf.Write(p) }
+func (s *wSink) bytes() []byte                                              { return s.buf.Bytes() }
 
 type swSink struct{ sw *bits.FixedSliceWriter }
 
 func (s *swSink) box(_ func() error, encSW func(bits.SliceWriter) error) error { return encSW(s.sw) }
-func (s *swSink) raw(p []byte)                                                { s.sw.WriteBytes(p) }
-func (s *swSink) bytes() []byte                                               { return s.sw.Bytes() }
+func (s *swSink) raw(p []byte)                                                 { s.sw.WriteBytes(p) }
+func (s *swSink) bytes() []byte                                                { return s.sw.Bytes() }
 
 // encodeAll writes init ++ segments. useSW selects the SliceWriter encoders.
 func encodeAll(b *built, useSW bool, opt mp4.EncOptimize) ([]byte, *harness.Fail) {
@@ -1065,7 +1068,13 @@ func genCase(t *rapid.T) historyCase {
 	for si := 0; si < nSeg; si++ {
 		so := op{Kind: "segment", Styp: rapid.Bool().Draw(t, "styp"), Piecewise: rapid.IntRange(0, 3).Draw(t, "piecewise") == 0}
 		for n := rapid.SampledFrom([]int{0, 0, 0, 0, 1, 2}).Draw(t, "npre"); n > 0; n-- {
-			so.Extra = append(so.Extra, genExtra(t, topKinds))
+			kinds := topKinds
+			if so.Styp {
+				// ISO/IEC 14496-12 8.16.5: a prft box follows the segment type / segment index boxes of its
+				// segment and precedes the moof it belongs to; in front of a styp it belongs to no fragment
+				kinds = topKinds[2:]
+			}
+			so.Extra = append(so.Extra, genExtra(t, kinds))
 		}
 		c.Ops = append(c.Ops, so)
 		nFrag := rapid.SampledFrom([]int{1, 1, 2, 3}).Draw(t, "nfrag")
